@@ -99,7 +99,7 @@ pub fn check_case(rep: &Report, case: &Case, labels: &[String], local: &mut Loca
             }
             if opt.bits < (1u64 << 28) && actual != opt.bits {
                 ok = false;
-                if actual < opt.bits && !ricebf::admissible_orders(n, order).contains(&sf.part_order) {
+                if actual < opt.bits && (!ricebf::admissible_orders(n, order).contains(&sf.part_order) || sf.rice_params.iter().any(|&p| p > cap)) {
                     // coded outside the search space the statement names (already reported above)
                     continue;
                 }
